@@ -98,6 +98,9 @@ pub mod vfs {
     // `pending`: bytes accepted by write_all that have not reached the file yet (tokio::fs::File hands its writes to a
     // background thread: they are in the file, and their failure is reported, only once the file has been flushed)
     pub struct File { pub path: Ghost<Seq<char>>, pub pos: Ghost<int>, pub pending: Ghost<Option<Seq<u8>>> }
+    // environment oracle: in this file-system state, opening or reading the existing file `p` fails (I/O error, permissions).
+    // Nothing is assumed about WHEN it holds; it only makes the outcome of a read a function of the state and the path.
+    pub uninterp spec fn read_faults(fs: Fs, p: Seq<char>) -> bool;
     // bytes of a file after writing `data` at offset 0 over `old`
     pub open spec fn overwrite(old: Seq<u8>, data: Seq<u8>) -> Seq<u8> {
         if data.len() >= old.len() { data } else { data + old.skip(data.len() as int) }
@@ -174,7 +177,9 @@ pub mod vfs {
         { unimplemented!() }
         #[verifier::external_body]
         pub fn open(p: &PathBuf, Tracked(w): Tracked<&mut World>) -> (r: Result<File, IoError>)
-            ensures *final(w) == *old(w), r matches Ok(f) ==> f.path@ == p@ && f.pos@ == 0 && f.pending@ is None && old(w).fs.files.contains_key(p@)
+            ensures *final(w) == *old(w), r matches Ok(f) ==> f.path@ == p@ && f.pos@ == 0 && f.pending@ is None && old(w).fs.files.contains_key(p@),
+                // opening for reading fails only for a file that is absent or that the environment refuses (read_faults)
+                (r is Ok) == (old(w).fs.files.contains_key(p@) && !read_faults(old(w).fs, p@)),
         { unimplemented!() }
         // AsyncWriteExt::write_all on a freshly opened file (offset 0): the bytes are accepted, nothing has reached the file yet
         #[verifier::external_body]
@@ -197,7 +202,8 @@ pub mod vfs {
         #[verifier::external_body]
         pub fn read_to_end(&mut self, buf: &mut Vec<u8>, Tracked(w): Tracked<&mut World>) -> (r: Result<usize, IoError>)
             ensures *final(w) == *old(w), final(self).path == old(self).path,
-                    r is Ok ==> final(buf)@ == old(buf)@ + old(w).fs.files[old(self).path@]
+                    r is Ok ==> final(buf)@ == old(buf)@ + old(w).fs.files[old(self).path@],
+                    !read_faults(old(w).fs, old(self).path@) ==> r is Ok,
         { unimplemented!() }
     }
     impl File {
